@@ -138,3 +138,15 @@ class CoherentArtifactAllSizes(Contract):
             return {"matrix": np.zeros((ng, nt, order)), "centers": rng.uniform(-1, 1, ng), "widths": rng.uniform(0.2, 1, ng), "global_axis_size": int(ng), "model_axis": rng.uniform(-2, 2, nt), "order": order}
 
         return out + records(on_index_spec(), self.name, prefix="on_index.") + records(all_indices_spec(), self.name, prefix="all_indices.") + crosscheck(on_index_spec(), a1) + crosscheck(all_indices_spec(), a2)
+
+
+def _with_selftest(fn):
+    def wrapped(self, tier):
+        from contracts.unbounded import engine_selftest
+
+        return fn(self, tier) + engine_selftest()
+
+    return wrapped
+
+
+CoherentArtifactAllSizes.static_obligations = _with_selftest(CoherentArtifactAllSizes.static_obligations)
